@@ -3,6 +3,7 @@
 package main
 
 import (
+	"context"
 	"os"
 
 	"github.com/spf13/cobra"
@@ -24,4 +25,9 @@ func verifNew(conf config.Config) *olareg.Server {
 	s := olareg.New(conf)
 	c19.Capture(s, conf)
 	return s
+}
+
+func verifRun(s *olareg.Server, ctx context.Context) error {
+	c19.BeforeRun()
+	return s.Run(ctx)
 }
